@@ -2,7 +2,7 @@
    (i) PrimFloat, complete on the finite domain the property states (n in 1..500): the accumulating loops
        return exactly n+1 points;  (ii) over Q: point_at is the point at fraction t of the segment. *)
 From Coq Require Import PrimFloat ZArith List Bool.
-From LBG Require Import FloatLoops Base QGeom G0_vec G1_shapes G2_inter G8_curve C11_inter2d C12_closest C11_inter3d C17_curve.
+From LBG Require Import FloatLoops Base QGeom G0_vec G1_shapes G2_inter G3_poly G5_bound G8_curve C11_inter2d C12_closest C11_inter3d C17_curve C17_arcs.
 Import ListNotations.
 
 Theorem C17_segment_subdivide_evenly_count : forall n, (1 <= n <= 500)%Z -> seg_evenly_count n = (Z.to_nat n + 1)%nat.
@@ -71,6 +71,58 @@ Theorem C17_subdivision_parameters_are_k_over_n : forall n, (1 <= n)%Z ->
     (nth j (params (1 / inject_Z n) (Z.to_nat n) (1 / inject_Z n)) 0 == inject_Z (Z.of_nat (S j)) / inject_Z n)%Q.
 Proof. exact subdivide_params. Qed.
 Print Assumptions C17_subdivision_parameters_are_k_over_n.
+
+(* arc-length parametrisation (generated Arc2D / Arc3D / LineSegment point_at_length, point_at, point_at_angle, length).  cos / sin / pi are
+   oracle parameters; the only facts used are that the oracles respect equality of rationals and, for the on-circle statement,
+   cos^2 + sin^2 = 1 at the angle in question. *)
+Theorem C17_arc_point_at_length_is_the_point_at_the_length_fraction : forall qcos qsin qpi a d,
+  Arc2D_point_at_length qcos qsin qpi a d = Arc2D_point_at qcos qsin qpi a (d / Arc2D_length qpi a) /\
+  forall b, Arc3D_point_at_length qcos qsin qpi b d = Arc3D_point_at qcos qsin qpi b (d / Arc3D_length qpi b).
+Proof. intros; split; [apply arc2_point_at_length_is_fraction | intros; apply arc3_point_at_length_is_fraction]. Qed.
+Print Assumptions C17_arc_point_at_length_is_the_point_at_the_length_fraction.
+
+Theorem C17_arc_point_at_length_is_at_angle_a1_plus_d_over_r : forall qcos qsin qpi,
+  (forall a b, a == b -> qcos a == qcos b)%Q -> (forall a b, a == b -> qsin a == qsin b)%Q ->
+  forall a d, (~ a2_r a == 0)%Q -> (~ Arc2D_angle qpi a == 0)%Q ->
+  Arc2D_point_at_length qcos qsin qpi a d =2= circle_point qcos qsin a (wrap qpi (a2_a1 a + d / a2_r a))%Q.
+Proof. exact arc2_point_at_length_angle. Qed.
+Print Assumptions C17_arc_point_at_length_is_at_angle_a1_plus_d_over_r.
+
+Theorem C17_arc_point_at_length_is_on_the_circle : forall qcos qsin qpi,
+  (forall a b, a == b -> qcos a == qcos b)%Q -> (forall a b, a == b -> qsin a == qsin b)%Q ->
+  forall a d, (~ a2_r a == 0)%Q -> (~ Arc2D_angle qpi a == 0)%Q ->
+  let w := wrap qpi (a2_a1 a + d / a2_r a)%Q in (qcos w * qcos w + qsin w * qsin w == 1)%Q ->
+  (sqd2 (Arc2D_point_at_length qcos qsin qpi a d) (a2_c a) == a2_r a * a2_r a)%Q.
+Proof. exact arc2_point_at_length_on_circle. Qed.
+Print Assumptions C17_arc_point_at_length_is_on_the_circle.
+
+Theorem C17_arc3d_points_are_the_plane_images_of_its_arc2d : forall qcos qsin qpi a x,
+  Arc3D_point_at qcos qsin qpi a x = Plane_xy_to_xyz (a3_plane a) (Arc2D_point_at qcos qsin qpi (a3_arc2d a) x) /\
+  Arc3D_point_at_angle qcos qsin qpi a x = Plane_xy_to_xyz (a3_plane a) (Arc2D_point_at_angle qcos qsin qpi (a3_arc2d a) x) /\
+  Arc3D_point_at_length qcos qsin qpi a x = Plane_xy_to_xyz (a3_plane a) (Arc2D_point_at_length qcos qsin qpi (a3_arc2d a) x) /\
+  Arc3D_length qpi a = Arc2D_length qpi (a3_arc2d a).
+Proof.
+  intros. split; [apply arc3_point_at_is_image|]. split; [apply arc3_point_at_angle_is_image|].
+  split; [apply arc3_point_at_length_is_image | apply arc3_length_is_arc2_length].
+Qed.
+Print Assumptions C17_arc3d_points_are_the_plane_images_of_its_arc2d.
+
+Theorem C17_segment_point_at_length_is_at_distance_d : forall qsqrt s d,
+  let m := (v3x (lr3v s) * v3x (lr3v s) + v3y (lr3v s) * v3y (lr3v s) + v3z (lr3v s) * v3z (lr3v s))%Q in
+  (qsqrt m * qsqrt m == m)%Q -> (~ m == 0)%Q -> (sqd3 (LineSegment3D_point_at_length qsqrt s d) (lr3p s) == d * d)%Q.
+Proof. exact segment3_point_at_length_distance. Qed.
+Print Assumptions C17_segment_point_at_length_is_at_distance_d.
+
+Theorem C17_segment2_point_at_length_is_at_distance_d : forall qsqrt s d,
+  let m := (v2x (lr2v s) * v2x (lr2v s) + v2y (lr2v s) * v2y (lr2v s))%Q in
+  (qsqrt m * qsqrt m == m)%Q -> (~ m == 0)%Q -> (sqd2 (LineSegment2D_point_at_length qsqrt s d) (lr2p s) == d * d)%Q.
+Proof. exact segment2_point_at_length_distance. Qed.
+Print Assumptions C17_segment2_point_at_length_is_at_distance_d.
+
+(* the hypotheses are satisfiable: a 3-4-5 segment with the executable root *)
+Example C17_point_at_length_concrete :
+  (sqd2 (LineSegment2D_point_at_length qsqrt_exec (mkLR2 (mkV2 1 1) (mkV2 3 4)) (5 # 2)) (mkV2 1 1) == (5 # 2) * (5 # 2))%Q.
+Proof. vm_compute. reflexivity. Qed.
 
 Example C17_exact_nonvacuous :
   map (fun p => (v2x p, v2y p)) (LineSegment2D_subdivide_evenly 10 (mkLR2 (mkV2 0 0) (mkV2 9 3)) 3) = [(0, 0); (3, 1); (6, 2); (9, 3)]%Q
